@@ -23,6 +23,10 @@ CHECKS = {
                 text="TLC checks Layout (slices tile in creation order, one init/bounds/fixed entry per component, one auxiliary datum per constrained component) on every state; replay checks the same statements on the layout pyhf REPORTS (any order is accepted), published defaults and measurement overrides verbatim, POI index, untouched caller specification, and independence of the (shuffled) listing order because every shuffled model must reproduce the exact rates.",
                 note="the implementation-shaped creation order is only a MODEL-DRIFT prediction; overrides explored: lumi settings (inits, bounds, auxdata, sigmas) in the TLC space, further overrides in the workspace check",
                 technique="TLC invariant Layout + replay of reported configuration"),
+    "C03": dict(engine="hfinterp", design="4/C03",
+                text="HFInterp.tla states the five published piecewise functions with exact rationals; TLC evaluates as ASSUMEs, over a 12-triple grid (symmetric, asymmetric, inverted, one-sided, null, non-dyadic), the anchors (neutral at 0, up at +1, down at -1), value continuity at every seam, slope continuation of code 2, first/second-derivative continuity of code 4p, and A(alpha0)*AInv(alpha0)=Id6 for alpha0 in {1/2,1,2} with AInv transcribed from pyhf's literal (which is value/C1/C2 continuity of code 4). MC_HFInterp.tla is the state machine of one interpolator object under calls of varying alpha-set shape and backend switches (hidden state: cached shape, backend tag); TLC checks CachesMatchAtUse and that the branch each class takes (comparison operators as coded) yields the published value for every comparison outcome. A seeded share of all histories is replayed on the real classes: exact/symbolic value, bit-equality with a fresh interpolator, agreement of vectorised and scalar classes, continuity at floating-point neighbours of the breakpoints.",
+                note="trusted: TLC, mpmath pow/log; alpha restricted to a 15-point rational grid plus nextafter/subnormal neighbours of the breakpoints; triples from the 12-point grid; code-4 core compared through the specification's AInv",
+                technique="TLA+ ASSUMEs over exact rationals + TLC history machine + replay of TLC behaviours"),
     "C20": dict(engine="hfvalidity", design="4/C20", level="fault_enumeration",
                 text="MC_HFValidity.tla injects every single structural fault of the classes the property lists (duplicate channel/sample/modifier, sample and modifier-data length, bin-wise modifier shared across bin counts, conflicting constraint class for one name, override of wrong length, undefined POI, lumi without settings; thorough: pairs) at every applicable position of every small well-formed specification; TLC proves each faulty specification violates the property's well-formedness predicate WF and each unfaulted one satisfies it (so refusal is never demanded of a consistent spec); the faulty specifications are replayed through pyhf.Model and Workspace.model and must be refused with an exception class defined in pyhf.exceptions. Fault enumeration is the natural level: the property quantifies over fault classes x positions.",
                 note="WF in MC_HFValidity.tla is my formalisation of 'structurally inconsistent'; a staterror name reused by the same sample across channels is deliberately not injected (coherent per-bin model in pyhf, see DESIGN.md); bounded by <=2 placements, 2 channels x 2 samples",
@@ -65,6 +69,8 @@ def build():
         "engines": [
             {"name": "hfmodel", "path": "spec/HFModel.tla spec/MC_HFModel.tla harness/checks/hf.py harness/hfreplay.py",
              "serves_properties": ["C01", "C02", "C10", "C12"], "kind_free_text": "TLA+ reference model of pyhf.Model (definition layer + implementation-shaped layer), TLC exhaustive check, replay of TLC states into pyhf"},
+            {"name": "hfinterp", "path": "spec/HFInterp.tla spec/MC_HFInterp.tla harness/checks/c03.py harness/interp.py",
+             "serves_properties": ["C03"], "kind_free_text": "exact-rational ASSUMEs on the interpolation formulas, interpolator history machine, replay on the real classes"},
             {"name": "hfvalidity", "path": "spec/MC_HFValidity.tla harness/checks/c20.py harness/validity.py",
              "serves_properties": ["C20"], "kind_free_text": "TLA+ fault injectors over the HFModel specification space, replayed into pyhf.Model / Workspace.model"},
         ],
